@@ -219,7 +219,7 @@ func extPure(name string) bool {
 		"(encoding/base32.Encoding).WithPadding", "(*encoding/base32.Encoding).WithPadding", "(*math/big.Int).SetString", "(*math/big.Int).Text",
 		"crypto/sha1.", "crypto/sha256.", "crypto/sha512.", "crypto/hmac.", "(error).Error", "runtime.", "(*runtime.",
 		"encoding/json.Marshal", "(*encoding/json.Encoder).Encode", "encoding/json.NewEncoder", "os/signal.", "context.",
-		"syscall/js.", "(syscall/js.", "maps.Keys", "maps.Values", "maps.All", "slices.Backward", "slices.All", "slices.Values", "slices.Contains", "slices.Index", "slices.Equal", "(hash.Hash).Write", "(hash.Hash).Size", "(hash.Hash).BlockSize"} {
+		"syscall/js.", "(syscall/js.", "cmp.", "maps.Keys", "maps.Values", "maps.All", "slices.Backward", "slices.All", "slices.Values", "slices.Contains", "slices.Index", "slices.Equal", "(hash.Hash).Write", "(hash.Hash).Size", "(hash.Hash).BlockSize"} {
 		if strings.HasPrefix(name, p) {
 			return true
 		}
